@@ -61,13 +61,17 @@ def digitsVal : Bytes → Nat → Option Nat
   | [], acc => some acc
   | c :: r, acc => if isDigit c then digitsVal r (acc * 10 + (c - 48)) else none
 
+/-- the optional sign of `strconv.Atoi` -/
+def signSplit : Bytes → Bool × Bytes
+  | 43 :: r => (false, r)
+  | 45 :: r => (true, r)
+  | s => (false, s)
+
 /-- `n, _ := strconv.Atoi(s)`: optional sign, decimal digits; 0 on a syntax error, clamped to the int64
 range on a range error (the error is ignored by the caller) -/
 def atoi (s : Bytes) : Int :=
-  let (neg, ds) := match s with
-    | 43 :: r => (false, r)
-    | 45 :: r => (true, r)
-    | _ => (false, s)
+  let neg := (signSplit s).1
+  let ds := (signSplit s).2
   if ds.isEmpty then 0 else
   match digitsVal ds 0 with
   | none => 0
@@ -103,32 +107,41 @@ structure CState where
   vis : List Bytes
   heap : Heap
 
+mutual
+/-- `compressThriftInclude(incl.Reference, m)` seen from the caller: the compressed include list of `p` -/
+def compressNode : Tree → CState → List Tree × CState
+  | .node _ ks, s => compressKids ks s
 /-- the loop of compressThriftInclude over `p.Includes` (recursion into first occurrences) -/
 def compressKids : List Tree → CState → List Tree × CState
   | [], s => ([], s)
-  | .node fn ks :: r, s =>
-    if s.vis.contains fn then
+  | k :: r, s =>
+    if s.vis.contains k.fn then
       -- visited, only keep the filename for mapping
       let (r', s') := compressKids r s
-      (.node (refPrefix ++ fn) [] :: r', s')
+      (.node (refPrefix ++ k.fn) [] :: r', s')
     else
       -- mark it's visited, recurse
-      let (ks', s1) := compressKids ks { s with vis := fn :: s.vis }
-      let s2 : CState := { vis := s1.vis, heap := s1.heap.ins fn (.node fn ks') }
+      let (ks', s1) := compressNode k { s with vis := k.fn :: s.vis }
+      let s2 : CState := { vis := s1.vis, heap := s1.heap.ins k.fn (.node k.fn ks') }
       let (r', s3) := compressKids r s2
-      (.node fn ks' :: r', s3)
+      (.node k.fn ks' :: r', s3)
+end
 
 /-- `compressThriftInclude(p, nil)`: the compressed AST and the pointees of the memo map -/
 def compress (t : Tree) : Tree × Heap :=
   let (ks', s) := compressKids t.kids { vis := [], heap := Heap.empty }
   (.node t.fn ks', s.heap)
 
+mutual
+def collectNode : Tree → Heap → Heap
+  | .node _ ks, m => collectKids ks m
 /-- collectThriftInclude -/
 def collectKids : List Tree → Heap → Heap
   | [], m => m
-  | .node fn ks :: r, m =>
-    if hasPrefix fn refPrefix then collectKids r m
-    else collectKids r (collectKids ks (m.ins fn (.node fn ks)))
+  | k :: r, m =>
+    if hasPrefix k.fn refPrefix then collectKids r m
+    else collectKids r (collectNode k (m.ins k.fn k))
+end
 
 inductive DRes (α : Type) where
   | ok (a : α)
